@@ -34,5 +34,10 @@ class MalformedDataPathSpec(Exception):
     pass
 
 
+class NotADataPathSpec(MalformedDataPathSpec):
+    """Raised if a specification does not have the form of a data path specification at
+    all (as opposed to a data path specification that is malformed)."""
+
+
 class MalformedRuleSpec(Exception):
     pass
